@@ -486,16 +486,6 @@ func initStubs() {
 		key := evKey(e, st, args)
 		if old, dup := e.conc.named[key]; dup {
 			// occurrences on different paths of one thread are mutually exclusive; on the same path it is a harness bug
-			for _, x := range st.Thread.events {
-				if x == old {
-					fail("ghost event %s emitted twice on one path", key)
-				}
-				for _, a := range old.Aux {
-					if x == a {
-						fail("ghost event %s emitted twice on one path", key)
-					}
-				}
-			}
 			if old.Thread != st.Thread.rec.id {
 				fail("ghost event %s emitted by two threads", key)
 			}
@@ -523,6 +513,12 @@ func initStubs() {
 			fail("Happened outside concurrent mode")
 		}
 		return ret(st, e.conc.placeholder("exec", evKey(e, st, args), BoolSort))
+	}
+	stubTable[zzp+"ThreadID"] = func(e *Exec, st *State, fn *Func, args []Value, site string) []Outcome {
+		if e.conc == nil || st.Thread == nil {
+			return ret(st, BVConst(0, 64))
+		}
+		return ret(st, BVConst(uint64(st.Thread.rec.id), 64))
 	}
 	stubTable[zzp+"Symbolic"] = func(e *Exec, st *State, fn *Func, args []Value, site string) []Outcome {
 		return ret(st, True)
